@@ -184,6 +184,8 @@ void set_guided_load_filter(std::function<bool(int)> f);
 void set_abort_handler(std::function<void(Result&)> h);   // called (then _exit) on deadlock / livelock
 int self();
 void access(const void* addr, bool write);          // announce a plain-memory access for the happens-before check
+void watch(const void* begin, const void* end);     // only accesses inside watched ranges are checked (heap blocks are recycled between threads)
+void clear_watches();
 void user_point(const char* label);                 // an extra scheduling point inside driver code
 
 } // namespace vsched
